@@ -31,6 +31,9 @@ pub enum ClientId {
 pub enum ServerId {
     Trusted,
     OtherCa,
+    /// certificate from the trusted CA, handed to the server as a PEM "full chain" file that also
+    /// carries the *other* CA's certificate: what the server presents must not widen whom it trusts
+    TrustedFullChain,
 }
 
 #[derive(Clone, Debug, Serialize, Deserialize)]
@@ -41,12 +44,15 @@ pub struct TlsScript {
     pub server: ServerId,
     /// the refused peer is a raw quinn client (true) or the selium library client (false)
     pub raw_client: bool,
+    /// the trusted certificate set was renewed in place (generator run again over an older set)
+    #[serde(default)]
+    pub renewed_in_place: bool,
 }
 
 pub fn pairings() -> Vec<(ClientId, ServerId)> {
     let mut v = vec![];
     for c in [ClientId::Trusted, ClientId::OtherCa, ClientId::SelfSigned, ClientId::None] {
-        for s in [ServerId::Trusted, ServerId::OtherCa] {
+        for s in [ServerId::Trusted, ServerId::OtherCa, ServerId::TrustedFullChain] {
             v.push((c, s));
         }
     }
@@ -60,12 +66,17 @@ pub struct TlsReport {
     pub send: Option<Result<(), String>>,
     pub subscriber_got: Vec<String>,
     pub subscriber_started: bool,
+    /// the server could not load the certificate files it was given
+    pub server_start_err: Option<String>,
     pub notes: Vec<String>,
 }
 
 async fn scenario(world: Rc<World>, sc: TlsScript) -> AResult<TlsReport> {
     let mut rep = TlsReport::default();
     let a = world.certs.clone();
+    if sc.renewed_in_place {
+        regenerate_certs_in_place(&a)?;
+    }
     let b = generate_certs("other")?;
     // server identity
     let server_dir = match sc.server {
@@ -79,13 +90,25 @@ async fn scenario(world: Rc<World>, sc: TlsScript) -> AResult<TlsReport> {
             std::fs::copy(a.server.join("ca.der"), mixed.join("ca.der"))?;
             CertDir { client: a.client.clone(), server: mixed }
         }
+        ServerId::TrustedFullChain => a.clone(),
     };
-    world.start_server_with(&server_dir, ServerOpts::default())?;
+    if sc.server == ServerId::TrustedFullChain {
+        let chain = scratch_root().join("fullchain.pem");
+        std::fs::create_dir_all(scratch_root())?;
+        std::fs::write(&chain, pem_chain(&[read_der(&a.server.join("localhost.der"))?, read_der(&b.server.join("ca.der"))?]))?;
+        if let Err(e) = world.start_server_files(&a.server.join("ca.der"), &chain, &a.server.join("localhost.key.der"), ServerOpts::default()) {
+            rep.server_start_err = Some(format!("{e:#}"));
+            return Ok(rep);
+        }
+    } else if let Err(e) = world.start_server_with(&server_dir, ServerOpts::default()) {
+        rep.server_start_err = Some(format!("{e:#}"));
+        return Ok(rep);
+    }
     let topic = "/secure/topic";
     let backoff = BackoffStrategy::constant().with_max_attempts(0);
     // a trusted subscriber watches the topic (only possible when the server itself is trusted)
     let mut watcher = None;
-    if sc.server == ServerId::Trusted {
+    if sc.server != ServerId::OtherCa {
         let g = world.new_group();
         let w = world.clone();
         let bo = backoff.clone();
@@ -195,8 +218,15 @@ pub fn execute(prop: &str, sc: &TlsScript, opts: &ExecOpts) -> Outcome {
                     out.inconclusive = true;
                     out.log.push(format!("setup error: {e:#}"));
                 }
+                Some(Ok(rep)) if rep.server_start_err.is_some() => {
+                    // every file the server was given came out of the bundled generator
+                    out.violate(prop, "generated-set-rejected-by-server", &sig, format!("the server could not load the generator's certificate files (renewed in place: {}): {}", sc.renewed_in_place, rep.server_start_err.clone().unwrap_or_default()));
+                }
                 Some(Ok(rep)) => {
-                    let should_work = sc.client == ClientId::Trusted && sc.server == ServerId::Trusted;
+                    let should_work = sc.client == ClientId::Trusted && sc.server != ServerId::OtherCa;
+                    if sc.renewed_in_place {
+                        out.fault("certificate_set_renewed_in_place");
+                    }
                     let connected = matches!(rep.connect, Some(Ok(())));
                     let opened = matches!(rep.open, Some(Ok(())));
                     let delivered = rep.subscriber_got.iter().any(|m| m == "intruder");
@@ -264,7 +294,7 @@ impl Family for TlsFamily {
         let ps = pairings();
         let (client, server) = ps[(index % ps.len() as u64) as usize];
         let net = NetCfg { seed: rng.next(), loss_ppm: *rng.pick(&[0u32, 0, 10_000, 30_000]), dup_ppm: *rng.pick(&[0u32, 20_000]), min_delay_ms: rng.range(1, 30) as u32, jitter_ms: *rng.pick(&[0u32, 10, 80]) };
-        serde_json::to_value(TlsScript { net, rt_seed: rng.next(), client, server, raw_client: rng.chance(1, 2) }).unwrap()
+        serde_json::to_value(TlsScript { net, rt_seed: rng.next(), client, server, raw_client: rng.chance(1, 2), renewed_in_place: rng.chance(1, 3) }).unwrap()
     }
     fn execute(&self, property: &str, body: &Value, opts: &ExecOpts) -> Outcome {
         match serde_json::from_value::<TlsScript>(body.clone()) {
@@ -280,6 +310,11 @@ impl Family for TlsFamily {
     fn shrink(&self, body: &Value) -> Vec<Value> {
         let Ok(sc) = serde_json::from_value::<TlsScript>(body.clone()) else { return vec![] };
         let mut out = vec![];
+        if sc.renewed_in_place {
+            let mut c = sc.clone();
+            c.renewed_in_place = false;
+            out.push(c);
+        }
         if sc.net.loss_ppm > 0 || sc.net.dup_ppm > 0 || sc.net.jitter_ms > 0 {
             let mut c = sc.clone();
             c.net.loss_ppm = 0;
@@ -293,6 +328,6 @@ impl Family for TlsFamily {
         120_000
     }
     fn exhaustive_note(&self, _p: &str, tier: Tier) -> Option<String> {
-        Some(format!("identity matrix: 8 pairings = client {{trusted CA, other CA, self-signed, none}} x server {{trusted CA, other CA}}; every pairing run under {} seeded network schedules, with the refused peer played by the library client and by a raw quinn client", if tier == Tier::Quick { 25 } else { 2000 }))
+        Some(format!("identity matrix: 12 pairings = client {{trusted CA, other CA, self-signed, none}} x server {{trusted CA, other CA, trusted CA presenting a full-chain file that also carries the other CA}}; every pairing run under {} seeded network schedules, with the refused peer played by the library client and by a raw quinn client, a third of them with the certificate set renewed in place", if tier == Tier::Quick { 20 } else { 1600 }))
     }
 }
